@@ -326,6 +326,9 @@ class Oracle:
         if k == "new":
             return PF([], [s["init"]], s["closed"])
         if k == "from_values":
+            ks = [p for p, _ in s["rows"]]
+            if any(not (a < b) for a, b in zip(ks, ks[1:])):       # the index must be strictly increasing
+                return {"t": "err", "e": "value"}
             return PF([p for p, _ in s["rows"]], [s["init"]] + [v for _, v in s["rows"]], s["closed"])
         if k == "layer":
             f = R[s["r"]]
@@ -481,7 +484,7 @@ class Oracle:
                 knots = [k for k in knots if k >= lo - l]
             if hi is not None:
                 knots = [k for k in knots if k <= hi - r]
-            return {"t": "ser", "rows": [(k, mean(restrict(cl, k + l, k + r))) for k in knots]}
+            return {"t": "rows", "rows": [(k, mean(restrict(cl, k + l, k + r))) for k in knots]}
         if q == "describe":
             lo, hi = s.get("lo"), s.get("hi")
             if lo is not None and hi is not None and not lo < hi:
@@ -629,6 +632,9 @@ def obs_equal(exp, got, tol=False):
     if t == "ser":
         return len(exp["rows"]) == len(got["rows"]) and all(
             a[0] == b[0] and _close(a[1], b[1], tol) for a, b in zip(exp["rows"], got["rows"]))
+    if t == "rows":      # computed labels (rolling_mean's sample points): exact in exact cases, tolerant in tolerant ones
+        return len(exp["rows"]) == len(got["rows"]) and all(
+            _close(a[0], b[0], tol) and _close(a[1], b[1], tol) for a, b in zip(exp["rows"], got["rows"]))
     if t == "vals":
         return len(exp["vals"]) == len(got["vals"]) and all(_close(a, b, tol) for a, b in zip(exp["vals"], got["vals"]))
     if t == "val":
